@@ -377,4 +377,26 @@ theorem stepsOfLegs_firstWait (egr : JStep) (legs : List JStep) (t : Int) (hne :
     obtain ⟨e, x, he, hx⟩ := hall l (List.mem_cons_self ..)
     cases rest <;> simp [stepsOfLegs, he, hx, firstWait, firstLegWait, boardOf, List.filter, Step.isBoard, Step.waitTime]
 
+/-- the steps `emit` renders for a journey of the form access, legs, egress -/
+theorem emit_steps (acc egr : JStep) (legs : List JStep) (hacc : acc.enter = none) (hegr : egr.enter = none)
+    (hne : legs ≠ []) (hall : AllLegs legs) :
+    (emit ds mw bd ([acc] ++ legs ++ [egr])).steps =
+      .walk 0 acc.walk acc.dist bd (bd + acc.walk) (bd + acc.walk + nextWaitOf mw legs.head?)
+        :: stepsOfLegs ds mw (bd + acc.walk) legs egr ∧
+    (emit ds mw bd ([acc] ++ legs ++ [egr])).departureTime = bd := by
+  refine ⟨?_, rfl⟩
+  obtain ⟨l1, rest, rfl⟩ : ∃ l1 rest, legs = l1 :: rest := by
+    cases legs with
+    | nil => exact absurd rfl hne
+    | cons a b => exact ⟨a, b, rfl⟩
+  have hn : ([acc] ++ (l1 :: rest) ++ [egr]).length = (l1 :: rest).length + 2 := by simp
+  have hloop : emitLoop ds mw bd ([acc] ++ (l1 :: rest) ++ [egr]).length ([acc] ++ (l1 :: rest) ++ [egr]) 0 {}
+      = emitLoop ds mw bd ([acc] ++ (l1 :: rest) ++ [egr]).length ((l1 :: rest) ++ [egr]) 1
+          (emitAccess mw bd {} acc (some l1)) := by
+    simp [emitLoop, emitStep, hacc]
+  obtain ⟨rel, _⟩ := emitLoop_from1 ds mw bd _ egr hegr (l1 :: rest) (emitAccess mw bd {} acc (some l1)) hne hall hn
+  simp only [emit, hloop]
+  rw [rel.steps]
+  simp [emitAccess]
+
 end Tr
